@@ -137,3 +137,18 @@ Proof. exact json_to_json_idempotent. Qed.
 Theorem C06_json_to_json_keeps_the_events :
   forall inp o : bytes, json_to_json_f inp = Some o -> fst (json_slice o) = fst (json_slice inp).
 Proof. exact json_to_json_keeps_events. Qed.
+
+(* The same for MessagePack -> MessagePack (theories/MsgpackIdemProofs.v): for
+   EVERY byte string that the reader loop translates to the end - whatever widths
+   its integers and lengths were spelled in - the bytes xt writes are the
+   canonical encoding of encodable values, and both loops reproduce them byte for
+   byte.  (bytes_ok: every element of the list is a byte.) *)
+From XtModel Require Import MsgpackIdemProofs.
+
+Theorem C06_msgpack_to_msgpack_idempotent_for_every_input :
+  forall (utf8_valid : bytes -> bool) (inp : bytes),
+    bytes_ok inp -> mm_ok (transcode_reader utf8_valid inp) = true ->
+    let o := mm_output (transcode_reader utf8_valid inp) in
+    mm_ok (transcode_reader utf8_valid o) = true /\ mm_output (transcode_reader utf8_valid o) = o /\
+    mm_ok (transcode_slice utf8_valid o) = true /\ mm_output (transcode_slice utf8_valid o) = o.
+Proof. exact msgpack_to_msgpack_idempotent. Qed.
